@@ -731,4 +731,169 @@ def execPy : List Stmt → Env → List (List Char) → Outcome
 
 def runPy (p : Prog) : Outcome := execPy p [] []
 
+/-- the effect of one chunk at source level: new environment, new output, value left on the stack (if any) -/
+def chunk (env : Env) (out : List (List Char)) : Stmt → Except Exc (Env × List (List Char) × Option Val)
+  | .defv x e =>
+    match evalW env e with
+    | .ok (v, _) => .ok ((x, v) :: env, out, none)
+    | .error ex => .error ex
+  | .print args =>
+    match evalArgsW env args with
+    | .ok (vs, _) => .ok (env, joinSp (vs.map showVal) :: out, some .none)
+    | .error ex => .error ex
+  | .expr e =>
+    match evalW env (stripWrap e) with
+    | .ok (v, _) => .ok (env, out, some v)
+    | .error ex => .error ex
+
+
+/-! ### Programs with `for!` loops over `lo..<hi` (bodies are chunk lists without nested loops) -/
+
+/-- top-level chunks including the counting loop `for! lo..<hi, i => body` -/
+inductive Top where
+  | stmt (s : Stmt)
+  | forRange (i : String) (lo hi : Expr) (body : List Stmt)
+  deriving Repr
+
+abbrev LProg := List Top
+
+/-- `emit_control_block` body: every chunk followed by `POP_TOP` when it leaves a value (the cancelled last `POP_TOP` is
+    re-emitted by `emit_for_instr`, so every value is popped) -/
+def compileBody : List Stmt → Option (List Instr)
+  | [] => some []
+  | s :: ss =>
+    match compileS s, compileBody ss with
+    | some (c, leaves), some cs => some (c ++ (if leaves then [.popTop] else []) ++ cs)
+    | _, _ => none
+
+/-- `emit_for_instr` (3.11) with the iterable `lo..<hi` emitted by `emit_binop` (`PUSH_NULL; LOAD_NAME RightOpenRange;
+    lo; hi; PRECALL 2; CALL 2`): `GET_ITER; EXTENDED_ARG; FOR_ITER → end; STORE_NAME i; body; EXTENDED_ARG; JUMP_BACKWARD →
+    the EXTENDED_ARG before FOR_ITER; LOAD_CONST None`.
+    `fill_jump(idx_for + 1, idx_end − idx_for − 2 − 2)` and `fill_jump(idx + 1, lasti − idx_for)`. -/
+def compileTop : Top → Option (List Instr × Bool)
+  | .stmt s => compileS s
+  | .forRange i lo hi body =>
+    match compileE lo, compileE hi, compileBody body with
+    | some cl, some ch, some cb =>
+      match jumpArgs (codeSize cb + 2 + 4), jumpArgs (codeSize cb + 2 + 8) with
+      | some (h1, l1), some (h2, l2) =>
+        some ([.pushNull, .loadName "RightOpenRange"] ++ cl ++ ch ++ [.call 2, .getIter, .extArg h1, .forIter l1, .storeName i]
+              ++ cb ++ [.extArg h2, .jumpBackward l2, .loadConst .none], true)
+      | _, _ => none
+    | _, _, _ => none
+
+def compileTops : List Top → Option (List Instr)
+  | [] => some [.loadConst .none, .returnValue]
+  | [t] =>
+    match compileTop t with
+    | some (c, leaves) => some (c ++ (if leaves then [] else [.loadConst .none]) ++ [.returnValue])
+    | none => none
+  | t :: t2 :: ts =>
+    match compileTop t, compileTops (t2 :: ts) with
+    | some (c, leaves), some cs => some (c ++ (if leaves then [.popTop] else []) ++ cs)
+    | _, _ => none
+
+def compileL (p : LProg) : Option (List Instr) := compileTops p
+
+/-- a loop body at source level: chunks in order; an exception stops with the output printed so far -/
+def bodyW : List Stmt → Env → List (List Char) → Bool → Except (Exc × List (List Char)) (Env × List (List Char) × Bool)
+  | [], env, out, clean => .ok (env, out, clean)
+  | s :: ss, env, out, clean =>
+    match s with
+    | .defv x e =>
+      match evalW env e with
+      | .error ex => .error (ex, out)
+      | .ok (v, c) => bodyW ss ((x, v) :: env) out (clean && c)
+    | .print args =>
+      match evalArgsW env args with
+      | .error ex => .error (ex, out)
+      | .ok (vs, c) => bodyW ss env (joinSp (vs.map showVal) :: out) (clean && c)
+    | .expr e =>
+      match evalW env (stripWrap e) with
+      | .error ex => .error (ex, out)
+      | .ok (_, c) => bodyW ss env out (clean && c)
+
+/-- `n` iterations starting at `cur`: bind the loop variable, run the body -/
+def loopW (i : String) (body : List Stmt) : Nat → Int → Env → List (List Char) → Bool →
+    Except (Exc × List (List Char)) (Env × List (List Char) × Bool)
+  | 0, _, env, out, clean => .ok (env, out, clean)
+  | n + 1, cur, env, out, clean =>
+    match bodyW body ((i, .int cur) :: env) out clean with
+    | .error e => .error e
+    | .ok (env', out', clean') => loopW i body n (cur + 1) env' out' clean'
+
+def execTopsW : List Top → Env → List (List Char) → Bool → Outcome × Bool
+  | [], _, out, clean => (⟨out.reverse, .ok⟩, clean)
+  | t :: ts, env, out, clean =>
+    match t with
+    | .stmt s =>
+      match bodyW [s] env out clean with
+      | .error (ex, o) => (⟨o.reverse, .exc ex⟩, false)
+      | .ok (env', out', clean') => execTopsW ts env' out' clean'
+    | .forRange i lo hi body =>
+      match evalW env lo with
+      | .error ex => (⟨out.reverse, .exc ex⟩, false)
+      | .ok (va, c1) =>
+        match evalW env hi with
+        | .error ex => (⟨out.reverse, .exc ex⟩, false)
+        | .ok (vb, c2) =>
+          match va, vb with
+          | .int a, .int b =>
+            match loopW i body (b - a).toNat a env out (clean && c1 && c2) with
+            | .error (ex, o) => (⟨o.reverse, .exc ex⟩, false)
+            | .ok (env', out', clean') => execTopsW ts env' out' clean'
+          | _, _ => (⟨out.reverse, .exc .typeError⟩, false)
+
+def runLW (p : LProg) : Outcome × Bool := execTopsW p [] [] true
+
+/-- the Python reading: `for i in range(lo, hi): body` -/
+def bodyPy : List Stmt → Env → List (List Char) → Except (Exc × List (List Char)) (Env × List (List Char))
+  | [], env, out => .ok (env, out)
+  | s :: ss, env, out =>
+    match s with
+    | .defv x e =>
+      match evalPy env e with
+      | .error ex => .error (ex, out)
+      | .ok v => bodyPy ss ((x, v) :: env) out
+    | .print args =>
+      match evalArgsPy env args with
+      | .error ex => .error (ex, out)
+      | .ok vs => bodyPy ss env (joinSp (vs.map showVal) :: out)
+    | .expr e =>
+      match evalPy env e with
+      | .error ex => .error (ex, out)
+      | .ok _ => bodyPy ss env out
+
+def loopPy (i : String) (body : List Stmt) : Nat → Int → Env → List (List Char) →
+    Except (Exc × List (List Char)) (Env × List (List Char))
+  | 0, _, env, out => .ok (env, out)
+  | n + 1, cur, env, out =>
+    match bodyPy body ((i, .int cur) :: env) out with
+    | .error e => .error e
+    | .ok (env', out') => loopPy i body n (cur + 1) env' out'
+
+def execTopsPy : List Top → Env → List (List Char) → Outcome
+  | [], _, out => ⟨out.reverse, .ok⟩
+  | t :: ts, env, out =>
+    match t with
+    | .stmt s =>
+      match bodyPy [s] env out with
+      | .error (ex, o) => ⟨o.reverse, .exc ex⟩
+      | .ok (env', out') => execTopsPy ts env' out'
+    | .forRange i lo hi body =>
+      match evalPy env lo with
+      | .error ex => ⟨out.reverse, .exc ex⟩
+      | .ok va =>
+        match evalPy env hi with
+        | .error ex => ⟨out.reverse, .exc ex⟩
+        | .ok vb =>
+          match va, vb with
+          | .int a, .int b =>
+            match loopPy i body (b - a).toNat a env out with
+            | .error (ex, o) => ⟨o.reverse, .exc ex⟩
+            | .ok (env', out') => execTopsPy ts env' out'
+          | _, _ => ⟨out.reverse, .exc .typeError⟩
+
+def runLPy (p : LProg) : Outcome := execTopsPy p [] []
+
 end ErgVerif.C01
